@@ -448,6 +448,58 @@ def prove_wait(rep, nmfu, program, prop):
     return nob
 
 
+def prove_pointing_to(rep, nmfu, program, prop):
+    """DFA.transitions_pointing_to / DFA.all_transitions - the contract the WaitMatch proof assumes: given the states DFA.dfs yields (by
+    contract: an arbitrary selection of the machine's states), all_transitions yields exactly the transitions of those states (each once,
+    with its state when asked), and transitions_pointing_to returns exactly those whose target is the given state.
+    Shapes: three reached states with 2/0/1 transitions, every assignment of the three targets to {the asked state, another}; both
+    values of include_states.  The functions are per-transition filters without carried state, so the shapes cover them up to symmetry."""
+    import itertools
+    n = 0
+    old_ms = getattr(Engine, "mutable_sets", False)
+    Engine.mutable_sets = True
+    try:
+        for fnq in ("DFA.all_transitions", "DFA.transitions_pointing_to"):
+            rep.fn(fnq)
+            for inc in (False, True):
+                for hits in itertools.product((False, True), repeat=3):
+                    def body(eng, fnq=fnq, inc=inc, hits=hits):
+                        asked = SObj(nmfu.DFState, {"transitions": HList([])})
+                        other = SObj(nmfu.DFState, {"transitions": HList([])})
+                        ts = [SObj(nmfu.DFTransition, {"on_values": HList([chr(97 + i)]), "target": asked if hits[i] else other, "is_fallthrough": i == 1, "error_handling": i == 0, "actions": HList([])}) for i in range(3)]   # one error-handling, one fall-through, one plain: no kind may be filtered out
+                        unreached_t = SObj(nmfu.DFTransition, {"on_values": HList(["z"]), "target": asked, "is_fallthrough": False, "error_handling": False, "actions": HList([])})
+                        st = [SObj(nmfu.DFState, {"transitions": HList([ts[0], ts[1]])}), SObj(nmfu.DFState, {"transitions": HList([])}), SObj(nmfu.DFState, {"transitions": HList([ts[2]])})]
+                        unreached = SObj(nmfu.DFState, {"transitions": HList([unreached_t])})
+                        dfa = SObj(nmfu.DFA, {"states": HList(st + [unreached, asked, other]), "starting_state": st[0], "accepting_states": HList([]), "__reach": HList(list(st))})
+                        if fnq.endswith("all_transitions"):
+                            v, _ = call_function(eng, fnq, [inc], self_obj=dfa)
+                        else:
+                            v, _ = call_function(eng, fnq, [asked, inc], self_obj=dfa)
+                        return (eng.iterate(v), ts, st, asked), {}
+                    cs = dict(DEBUG_CONTRACTS)
+                    cs["DFA.dfs"] = lambda eng, a, kw: a[0].fields["__reach"]
+                    rs = list(explore(program, body, contracts=cs))
+                    cl = Clauses(rep, prop, fnq, f"states={inc}.hits={''.join('1' if h else '0' for h in hits)}", [], None)
+                    if len(rs) != 1 or rs[0].exits or rs[0].dead is not False:
+                        cl.fail("no-exception", "raises / forks on a concrete machine")
+                        n += cl.n
+                        continue
+                    got, ts, st, asked = rs[0].value
+                    owner = {id(ts[0]): st[0], id(ts[1]): st[0], id(ts[2]): st[2]}
+                    want = [t for i, t in enumerate(ts) if fnq.endswith("all_transitions") or hits[i]]
+                    if inc:
+                        ok = (len(got) == len(want) and all(isinstance(g, tuple) and len(g) == 2 for g in got)
+                              and {id(g[1]) for g in got} == {id(t) for t in want} and all(g[0] is owner.get(id(g[1])) for g in got))
+                    else:
+                        ok = len(got) == len(want) and {id(g) for g in got} == {id(t) for t in want}
+                    cl.structural("exactly-the-reached-transitions" + ("" if fnq.endswith("all_transitions") else "-into-the-state"), ok,
+                                  f"returned {len(got)} item(s), expected the {len(want)} transition(s) of the reached states" + ("" if fnq.endswith("all_transitions") else " that enter the asked state") + (", each with its own state" if inc else ""))
+                    n += cl.n
+    finally:
+        Engine.mutable_sets = old_ms
+    return n
+
+
 def run(rep, prop, which, nmfu, program):
     """which: subset of {"DirectMatch", "CaseDirectMatch", "EndMatch", "WaitMatch"}.  An engine limit (construct outside the modelled
     subset, e.g. after a rewrite of the function) is reported as undecided, never as a violation."""
@@ -460,6 +512,8 @@ def run(rep, prop, which, nmfu, program):
                 n += prove_endmatch(rep, nmfu, program, prop)
             elif w == "WaitMatch":
                 n += prove_wait(rep, nmfu, program, prop)
+            elif w == "pointing_to":
+                n += prove_pointing_to(rep, nmfu, program, prop)
         except (Unsupported, NeedFork, KeyError) as e:
             rep.unavailable(f"{prop}/pyvc/{w}.convert/engine", f"outside the modelled Python subset: {type(e).__name__}: {e}")
     rep.trust("vf/pyvc semantics of the Python subset (heap objects, arbitrary list segments `Seg`: only concatenation-like uses allowed, generators evaluated eagerly)")
